@@ -358,3 +358,29 @@ PROPS["C16"] = dict(
     trusted_base=["Model/Flatten.v (fb_run / fi_run) follows builder::Flattened, private::flatten_*_bezier, iterator::Flattened"],
     assumptions=["finite coordinates and attributes"],
 )
+
+PROPS["C13"] = dict(
+    level="proof",
+    level_text="Theorems (Props/C13.v) over the rationals for the algebraic part of Arc::from_svg_arc, with cos/sin of the "
+               "x-rotation on the unit circle and the two square roots as oracles: for every SVG arc with non-zero radii and "
+               "distinct end points the returned start / end directions are unit vectors and the centre-form ellipse "
+               "passes through the given start and end points; the radii are kept when rf <= 1 and both multiplied by "
+               "sqrt(rf) > 1 otherwise; the sweep adjustment yields a sweep in [0, 2pi) for the sweep flag and in (-2pi, 0] "
+               "without it; to_svg_arc's flags are (|sweep| >= pi, sweep >= 0); the Bezier pieces chain in angle and in "
+               "parameter from 0 to exactly 1 and end at start + sweep. The model is compared with lyon_geom (f64) within "
+               "1e-9 using the oracle values the code computed. Large-arc selection and the full round trip need atan2 "
+               "facts: validated per run on all flag combinations, not proved; so is the distance of the quadratic / "
+               "cubic approximations to the true ellipse (<= 1.2% / 0.4% of the larger radius).",
+    level_note="Trusted: Coq kernel; trigonometric functions and sqrt are oracles; |sweep| >= pi <-> large-arc and the "
+               "Bezier approximation error are validated numerically.",
+    technique="Coq proof (field/nra identities over Q with sqrt/cos/sin oracles) + tolerance-based differential correspondence",
+    coq_targets=["theories/Props/C13.vo", "theories/Run/C13.vo"],
+    props_file="theories/Props/C13.v",
+    props_module="Props.C13",
+    harness=[dict(sub="c13", profile="debug")],
+    rule="integer end points in [-10,10]^2, radii relative to the chord {comfortable, too small (scaled), = chord, = half "
+         "chord (semicircle), arbitrary}, negative radius sign, x-rotation {0, the 3-4-5 angle, multiples of 0.3 rad}, all "
+         "four flag combinations; every case: centre form, round trip, quadratic and cubic sequences",
+    trusted_base=["Model/Arc.v follows Arc::from_svg_arc / to_svg_arc / arc_to_quadratic_beziers_with_t in arc.rs"],
+    assumptions=["non-zero radii and distinct end points (otherwise lyon treats the arc as a straight line)"],
+)
